@@ -42,3 +42,11 @@ Theorem sites_respect_discipline :
   forallb site_okb Gen.Sites.sites = true /\ fields_covered Gen.Sites.sites = true.
 Proof. exact (conj eq_refl eq_refl). Qed.
 Print Assumptions sites_respect_discipline.
+
+(* results equal to some sequential order of the calls: the critical sections are atomic
+   (mutex_critical_sections_atomic), and every function touches the fields guarded by a lock
+   inside ONE Lock...Unlock section — no check-then-act split over two sections (recomputed
+   against the current source) *)
+Theorem critical_sections_whole : Gen.Sites.split_critical_sections = [].
+Proof. reflexivity. Qed.
+Print Assumptions critical_sections_whole.
